@@ -262,6 +262,22 @@ def C13.inFlight (evs : List Ev) (k : Nat) (me : Nat) (id : String) : Bool :=
 def C13.finalAfter (evs : List Ev) (k : Nat) (id : String) : Bool :=
   (evs.drop (k + 1)).all (fun a => !(a.obj == "map" && a.key == id && (a.op == "insert" || (a.op == "remove" && a.res == "found"))))
 
+/-- C03 (conservation through a quantity amendment). A same-price amendment rewrites the displayed quantity only
+    (`with_reduced_quantity`), so between its lookup (`map.get … found`) and its ticket (`q.push`) the amending
+    thread must not move the hidden-quantity counter: a non-zero `hid.fetch_add / fetch_sub` there creates or
+    destroys quantity of that order. `inAmend` = threads currently inside such a call. -/
+def C03.amendScan (inAmend : List Nat) : List Ev → Bool
+  | [] => true
+  | e :: rest =>
+    if e.obj == "map" && e.op == "get" then
+      C03.amendScan (if e.res == "found" then e.t :: inAmend else inAmend) rest
+    else if e.obj == "map" && e.op == "remove" && e.res != "found" then
+      C03.amendScan (inAmend.filter (· != e.t)) rest
+    else if e.obj == "q" && e.op == "push" then
+      C03.amendScan (inAmend.filter (· != e.t)) rest
+    else if e.obj == "hid" && inAmend.contains e.t && e.key != "0" then false
+    else C03.amendScan inAmend rest
+
 /-! ## C03 — conservation at quiescence, per order id
 
 `supplied id` (pre-loaded or added), `executed id` (sum over all threads' transactions),
